@@ -47,8 +47,26 @@ fn main() {
     let f = std::fs::File::open(&args[2]).expect("open cases");
     // silence the default panic message; panics are reported in-band
     panic::set_hook(Box::new(|_| {}));
-    let out = std::io::stdout();
-    let mut out = std::io::BufWriter::new(out.lock());
+    // every result line is flushed at once, so that a case that never returns loses nothing of what came before it;
+    // a watchdog thread reports such a case in-band ({"hang": ..}) and ends the process: the driver re-runs the rest
+    let limit_s: u64 = std::env::var("IMPL_CASE_TIMEOUT_S").ok().and_then(|s| s.parse().ok()).unwrap_or(30);
+    let started = std::sync::Arc::new(std::sync::Mutex::new(None::<std::time::Instant>));
+    {
+        let started = started.clone();
+        std::thread::spawn(move || loop {
+            std::thread::sleep(std::time::Duration::from_millis(200));
+            let guard = started.lock().unwrap();
+            if let Some(t0) = *guard {
+                if t0.elapsed().as_secs() >= limit_s {
+                    let mut o = std::io::stdout();
+                    let _ = writeln!(o, "{}", json!({"hang": format!("the case did not finish within {} s", limit_s), "_us": t0.elapsed().as_micros() as u64}));
+                    let _ = o.flush();
+                    std::process::exit(3);
+                }
+            }
+        });
+    }
+    let mut out = std::io::stdout();
     for line in BufReader::new(f).lines() {
         let line = line.expect("read");
         if line.trim().is_empty() {
@@ -57,7 +75,11 @@ fn main() {
         let case: Value = serde_json::from_str(&line).expect("case json");
         let eng = engine.clone();
         let t0 = std::time::Instant::now();
+        *started.lock().unwrap() = Some(t0);
         let res = panic::catch_unwind(panic::AssertUnwindSafe(|| dispatch(&eng, &case)));
+        // (taking the lock also keeps the watchdog from reporting a case whose result is being written)
+        let mut running = started.lock().unwrap();
+        *running = None;
         let us = t0.elapsed().as_micros() as u64;
         let mut v = match res {
             Ok(v) => v,
@@ -76,6 +98,7 @@ fn main() {
             o.insert("_us".to_string(), json!(us));
         }
         writeln!(out, "{}", v).unwrap();
+        out.flush().unwrap();
+        drop(running);
     }
-    out.flush().unwrap();
 }
